@@ -506,7 +506,11 @@ def gen_program(rng, cls, force=None):
                 prev = (k, pins)
                 if where == "setup":
                     pre_seq.append(d)
-                    if usable_kind(k) and (rng.random() < 0.6 or (force is not None and force.get("use", True))):
+                    if force is not None:
+                        want = force["use"] is True or (force["use"] == "last" and j == n_pre - 1)
+                    else:
+                        want = rng.random() < 0.6
+                    if usable_kind(k) and want:
                         pre_seq.append(ruse(nm, k))
                 else:
                     extra_loop_decls.append(d)
@@ -1031,7 +1035,8 @@ NMAX = 3
 
 def guard_of(flags):
     return {"transl_ok": bool(flags[0]), "vars_persist": bool(flags[1]), "well_placed": bool(flags[2]),
-            "one_main_last": bool(flags[3]), "vars_ok": bool(flags[4])}
+            "one_main_last": bool(flags[3]), "vars_ok": bool(flags[4]),
+            "well_placed_unique": bool(flags[5]) if len(flags) > 5 else False}
 
 
 def check_batch(ctx, progs, stats, known_mode=False):
@@ -1052,6 +1057,13 @@ def check_batch(ctx, progs, stats, known_mode=False):
             continue
         if me is not None:
             rec["guard"] = guard_of(me[7])
+            if rec["guard"]["well_placed_unique"]:
+                stats["unique_guard"] = stats.get("unique_guard", 0) + 1
+                if rec["guard"]["transl_ok"] and not rec["guard"]["well_placed"]:
+                    ctx.disagree("guard monotonicity: the unique-names guard of the first version holds but the weakened guard does not",
+                                 p["src"], rec["guard"], None)
+            elif rec["guard"]["well_placed"]:
+                stats["only_new_guard"] = stats.get("only_new_guard", 0) + 1
         stats["verdicts"][("accepted" if r["ok"] else r["exc"])] = stats["verdicts"].get(("accepted" if r["ok"] else r["exc"]), 0) + 1
         # ---- break guard: parse() verdict
         has_break_main = p["cls"] in ("break_main", "break_main_if")
@@ -1326,6 +1338,9 @@ def run(ctx: C.Ctx):
         for shape in ("pre_loop", "pre_pre", "loop_loop"):
             for pins in ("same", "diff"):
                 forced.append({"kinds": [k], "shape": shape, "pins": pins, "use": True})
+    for k in HOISTED:
+        # bound twice before the loop, commanded only after the second binding (and in the loop)
+        forced.append({"kinds": [k], "shape": "pre_pre", "pins": "diff", "use": "last"})
     if thorough:
         for k in HOISTED:
             for shape in ("pre_pre_loop", "pre_loop_loop"):
@@ -1407,6 +1422,8 @@ def run(ctx: C.Ctx):
                          "sketches_run": stats["sketches"], "sketches_not_compiled": stats["not_compiled"],
                          "abstract_trace_events_compared": stats["trace_events"], "model_says_c_undefined": stats["c_undef"],
                          "monitor_runs_on_real_traces": stats["monitor_runs"], "inside_placement_guard": stats["in_guard_placement"],
+                         "inside_unique_names_guard_of_v1": stats.get("unique_guard", 0),
+                         "inside_placement_guard_only_since_rebinding_is_modelled": stats.get("only_new_guard", 0),
                          "compared_with_cpython_inside_guard": n_inside, "outside_guard_not_compared": stats["outside_guard_python"],
                          "cpython_exceptions": stats["py_exc"], "prefix_runs": prefix_checked,
                          "motor_pins_checked_for_safe_stop": stats.get("motor_pins_checked", 0),
